@@ -97,10 +97,21 @@ func (e *Engine) invoke(st *State, th *Thread, fnv Value, args []Value, inst ssa
 		finish(nil)
 		return
 	}
+	if fn.Pkg != nil && stubPkgs[fn.Pkg.Pkg.Path()] {
+		e.res.Stubs["stub-pkg:"+fn.Pkg.Pkg.Path()]++
+		finish(e.zeroResults(fn))
+		return
+	}
 	if len(fn.Blocks) == 0 {
 		e.unsupported("call to function without body: %s (at %s)", name, e.instrPos(st))
 	}
 	e.pushFrame(st, th, fn, args, f.Bind, inst)
+}
+
+// stubPkgs: every function of these packages is an empty body returning zero values (logging).
+var stubPkgs = map[string]bool{
+	"github.com/samaritan-proxy/samaritan/logger": true,
+	"github.com/tevino/log":                      true,
 }
 
 // callThen pushes a call whose return value is handed to k instead of a register.
